@@ -127,6 +127,9 @@ pub fn gen_ops(seed: u64, w: &World, mix: &OpMix) -> Vec<Op> {
         if r.chance(10) {
             v.push("unknown".to_string());
         }
+        if r.chance(6) {
+            v.push(String::new());
+        }
         if r.chance(10) && !v.is_empty() {
             v.push(v[0].clone());
         }
@@ -668,6 +671,14 @@ pub fn last_panic() -> String {
     LAST_PANIC.with(|p| p.borrow().clone())
 }
 
+enum Q {
+    Net(usize),
+    Subset(usize, bool, bool),
+    Csp(usize),
+    Cos(usize),
+    Cid(usize, usize),
+}
+
 struct Model {
     rules: Vec<Rule>,
     tags: BTreeSet<String>,
@@ -829,6 +840,7 @@ impl<'a> Exec<'a> {
         }
         let mut oracles = Oracles { version: 0, fresh: None, noopt: None, tagfree: None, list: None };
         let mut state_set: BTreeSet<u64> = BTreeSet::new();
+        let mut last_query: Option<Op> = None;
 
         macro_rules! fail {
             ($oracle:expr, $step:expr, $op:expr, $what:expr, $got:expr, $want:expr) => {{
@@ -1067,14 +1079,24 @@ impl<'a> Exec<'a> {
             }
 
             // ---- which probes to evaluate
-            enum Q {
-                Net(usize),
-                Subset(usize, bool, bool),
-                Csp(usize),
-                Cos(usize),
-                Cid(usize, usize),
-            }
             let mut qs: Vec<Q> = vec![];
+            // a state change is first followed by the most recent single query again (same request,
+            // back to back): the case a "last verdict" memo would get wrong
+            if op.mutating() {
+                if let Some(lq) = &last_query {
+                    qs.push(match lq {
+                        Op::Check(i) => Q::Net(*i),
+                        Op::CheckSubset(i, m, f) => Q::Subset(*i, *m, *f),
+                        Op::Csp(i) => Q::Csp(*i),
+                        Op::Cosmetic(p) if sut.is_engine() => Q::Cos(*p),
+                        Op::ClassId(c, p) if sut.is_engine() => Q::Cid(*c, *p),
+                        _ => Q::Net(0),
+                    });
+                }
+            }
+            if matches!(op, Op::Check(_) | Op::CheckSubset(..) | Op::Csp(_) | Op::Cosmetic(_) | Op::ClassId(..)) {
+                last_query = Some(op.clone());
+            }
             let full = op.mutating() && !matches!(op, Op::Advance(_) | Op::SetPolicy(..) | Op::Serialize(_)) || matches!(op, Op::ProbeAll);
             if full {
                 for i in 0..w.probes.len() {
@@ -1274,6 +1296,7 @@ pub fn kitchen_sink_world() -> World {
         extra: 8,
         tiny_patterns: true,
         non_ascii_urls: false,
+        hostname_wildcards: false,
     };
     let mut w = gen_world(0x5157_a7e5, &p);
     for k in 1..12u64 {
